@@ -25,6 +25,10 @@
      and no pack strategy wraps a fragments write or a child pack in a try that could swallow
      it, so the pack driver's handler turns it into PacketError (R7).
 Byte-for-byte equality for all inputs and "no longer than the region traversed" are not decided.
+
+Round 5: the Em marker stores an empty chunk at the cursor; only Int / Data own a struct code,
+never a pad code; every function Ref._compile can install in a role is judged in that role;
+C11's index rule (bisect slot) is included.
 """
 import ast
 
